@@ -472,7 +472,7 @@ impl World for WatermarkWorld {
         }
         // the whole history closer to zero
         if let Some(m) = t.arrivals.iter().map(|a| a.ts).min() {
-            for off in [m, m / 2, 1u64 << 31] {
+            for off in [1u64 << 31, m / 2, m] { // inserted at the front one by one: the largest step ends up first
                 if off > 0 && off <= m {
                     let mut c = t.clone();
                     for a in c.arrivals.iter_mut() {
